@@ -1,6 +1,7 @@
 """C03 -- neutron SLD, cross sections and penetration follow the documented equations."""
 from __future__ import annotations
 
+import itertools
 import math
 
 import numpy as np
@@ -8,6 +9,8 @@ import numpy as np
 from ..runner import Case
 from .. import sym
 from . import common as cm
+
+_CNT = itertools.count()
 
 META = dict(
     functions=['periodictable.nsf:neutron_scattering', 'periodictable.nsf:_calculate_scattering',
@@ -115,14 +118,25 @@ def _direct_case(sym_el, iso):
     runs the real nsf.init on a private table whose element mass and density are symbolic."""
     def h(E):
         from periodictable import nsf
-        T = cm.private_table('c03d-%s' % sym_el, neutron=False)
-        el = getattr(T, sym_el)
-        el._mass = E.real('m_el', lo=0.5, hi=300)
-        el._density = E.real('rho_el', lo=0.01, hi=25)
-        atom = el if iso is None else el[iso]
-        if iso is not None:
-            atom._mass = E.real('m_iso', lo=0.5, hi=300)
-        nsf.init(T, reload=True)
+        # a freshly initialised private table each time (nsf.init(reload=True) keeps the old record of
+        # single-isotope elements, which is not what this case is about)
+        from periodictable import core, mass, density
+        import os
+        T = core.PeriodicTable('vsym-c03d-%s-%d-%d' % (sym_el, os.getpid(), next(_CNT)))
+        try:
+            mass.init(T)
+            density.init(T)
+            el = getattr(T, sym_el)
+            el._mass = E.real('m_el', lo=0.5, hi=300)
+            el._density = E.real('rho_el', lo=0.01, hi=25)
+            atom = el if iso is None else el[iso]
+            if iso is not None:
+                atom._mass = E.real('m_iso', lo=0.5, hi=300)
+            nsf.init(T)
+        finally:
+            for k, v in list(core.PRIVATE_TABLES.items()):
+                if v is T:
+                    del core.PRIVATE_TABLES[k]
         lam = E.real('lam', lo=0.05, hi=50)
         direct = atom.neutron.scattering(wavelength=lam)
         comp = nsf.neutron_scattering(atom, density=atom.density, wavelength=lam)
@@ -289,7 +303,7 @@ def cases(tier):
     if tier == 'thorough':
         direct += [('H', None), ('H', 1), ('Gd', None), ('Gd', 157), ('Au', None), ('B', 10), ('Li', 6), ('U', 235), ('Sm', 149)]
     for s, iso in direct:
-        out.append(Case('direct[%s%s]' % (s, '' if iso is None else '-%d' % iso), _direct_case(s, iso), max_paths=128,
+        out.append(Case('direct[%s%s]' % (s, '' if iso is None else '-%d' % iso), _direct_case(s, iso), max_paths=128 if tier == 'quick' else 1024,
                         timeout_ms=30000))
     for other in (['Po', 'Rn'] if tier == 'quick' else ['Po', 'Rn', 'At', 'Bk', 'Og', 'Ra']):
         out.append(Case('no_data[%s]' % other, _none_case(other), max_paths=8))
